@@ -374,3 +374,34 @@ def replay_stray_heading_end(mask, L, in_template):
     w.start_page("T")
     plain = shape(w.parse(canonical_doc(mask, [], "intro " + ("{{t|" if in_template else "") + "QQ x QQ" + ("}}" if in_template else "")) + "after\n"))
     return ("parse(" + repr(doc) + ")", got != plain, f"section structure {got}; with plain words in place of the inline '{'=' * L} x {'=' * L}' it is {plain}")
+
+
+# ---------------------------------------------------------------- parser flags left behind by an earlier parse() call
+CARRY2_DOC = "== A ==\nintro\n=== B ===\n* one\n** two\n# three\n----\ntext\n== C ==\n*# x\n"
+_fresh2 = Wtp(quiet=True, quiet_output=True)
+_fresh2.start_page("T")
+CARRY2_WANT = shape(_fresh2.parse(CARRY2_DOC))
+
+
+def carry_over2(pre_parse: bool, bol: bool, wsp: bool, supp: bool) -> bool:
+    """whatever per-parse flags an earlier parse() on the same context left behind (an unclosed <pre>, a line that ended in
+    the middle of a construct ...), parse() of a heading / list / rule document gives the structure a fresh context gives"""
+    ctx.start_page("T")
+    ctx.pre_parse = pre_parse
+    ctx.beginning_of_line = bol
+    ctx.wsp_beginning_of_line = wsp
+    ctx.suppress_special = supp
+    reset_begline(ctx)
+    return shape(ctx.parse(CARRY2_DOC)) == CARRY2_WANT
+
+
+def replay_carry_over2(pre_parse, bol, wsp, supp):
+    w = Wtp(quiet=True, quiet_output=True)
+    for first in ("<pre>unclosed", "x\n {{t|", "[[a|", "''i", "<nowiki>", "* a\n <pre>\n== h"):
+        w.start_page("T")
+        w.parse(first)
+        w.start_page("T")
+        got = shape(w.parse(CARRY2_DOC))
+        if got != CARRY2_WANT:
+            return (f"one context: parse({first!r}); start_page; parse({CARRY2_DOC!r})", True, f"the heading / list document parses differently after the first call: {str(got)[:200]}")
+    return ("parse histories", False, "")
